@@ -18,7 +18,7 @@ CONSTANTS
   FixD1 = TRUE
   SimDepth = 0
   Msgs <- MsgsD
-  Apps <- AppsRich
+  Apps <- AppsSmall
 CONSTRAINT TimeBound
 VIEW view
 INVARIANT NoMonitorRejects
